@@ -4,6 +4,6 @@ id=$1; shift
 S=$(mktemp -d /tmp/seedrun.XXXX)
 git -C /repo archive HEAD | tar -x -C $S
 (cd $S && patch -p1 -s < /verif/seeded/$id/patch.diff) || { echo "patch failed"; rm -rf $S; exit 3; }
-BT_REPO=$S "$@"; rc=$?
+VERIF_EVIDENCE_DIR=$S/evidence BT_REPO=$S "$@"; rc=$?
 rm -rf $S
 exit $rc
